@@ -35,7 +35,36 @@ class ArgSpec:
         return 'Arg(%s dest=%s action=%s nargs=%s type=%s req=%s default=%r)' % (self.flags, self.dest, self.action, self.nargs, self.type, self.required, self.default)
 
 
-def argparse_table(funcnode):
+def enum_listing(v, repo):
+    """[m.name.lower() for m in SomeEnum] / [m.name for ...] / [m.value for ...] over an Enum class of the package whose
+    members are plain assignments: the literal list it denotes (None when v is not of that shape)."""
+    if repo is None or not (isinstance(v, (ast.ListComp, ast.GeneratorExp)) and len(v.generators) == 1 and not v.generators[0].ifs):
+        if isinstance(v, ast.Call) and isinstance(v.func, ast.Name) and v.func.id in ('list', 'tuple', 'sorted') and len(v.args) == 1 and not v.keywords:
+            inner = enum_listing(v.args[0], repo)
+            return (sorted(inner) if v.func.id == 'sorted' else inner) if inner is not None else None
+        return None
+    g = v.generators[0]
+    if not (isinstance(g.target, ast.Name) and isinstance(g.iter, ast.Name)):
+        return None
+    members = None
+    for rel, tree in repo.trees.items():
+        for n in tree.body:
+            if isinstance(n, ast.ClassDef) and n.name == g.iter.id and any(ast.unparse(b).split('.')[-1] in ('Enum', 'IntEnum') for b in n.bases):
+                if any(isinstance(m, ast.FunctionDef) and m.name in ('__iter__', '_missing_', '__new__') for m in n.body):
+                    return None
+                members = repo.enum_members(rel, n.name)
+    if members is None:
+        return None
+    var = g.target.id
+    txt = ast.unparse(v.elt)
+    forms = {var + '.name.lower()': lambda nm, val: nm.lower(), var + '.name': lambda nm, val: nm, var + '.value': lambda nm, val: val,
+             var + '.name.upper()': lambda nm, val: nm.upper()}
+    if txt not in forms:
+        return None
+    return [forms[txt](nm, val) for nm, val in members]
+
+
+def argparse_table(funcnode, repo=None):
     """All parser.add_argument(...) calls in a function (ast-level; constant arguments only)."""
     out = []
     for n in ast.walk(funcnode):
@@ -50,6 +79,8 @@ def argparse_table(funcnode):
                     kw[k.arg] = v.id            # type=int -> 'int'
                 elif isinstance(v, ast.List) and all(isinstance(e, ast.Constant) for e in v.elts):
                     kw[k.arg] = [e.value for e in v.elts]
+                elif enum_listing(v, repo) is not None:
+                    kw[k.arg] = enum_listing(v, repo)
                 else:
                     kw[k.arg] = ('expr', ast.unparse(v))
             out.append(ArgSpec(flags, kw, n.lineno))
@@ -78,7 +109,7 @@ class ParserFacts:
         except Unknown as u:
             raise AnalysisError('Options_parser.parse outside the interpreted fragment: %s' % u)
         self.it = it
-        self.args = argparse_table(repo.method('Options_parser', '_create_arg_parser').node)
+        self.args = argparse_table(repo.method('Options_parser', '_create_arg_parser').node, repo)
         self.by_dest = {a.dest: a for a in self.args}
         self.errors = []       # (effect, ctx) for parser.error(...) calls
         for e, ctx in iter_effects(self.effs):
